@@ -11,6 +11,9 @@ import (
 	abci "github.com/cometbft/cometbft/abci/types"
 	sdk "github.com/cosmos/cosmos-sdk/types"
 	authtypes "github.com/cosmos/cosmos-sdk/x/auth/types"
+	banktypes "github.com/cosmos/cosmos-sdk/x/bank/types"
+	govtypes "github.com/cosmos/cosmos-sdk/x/gov/types"
+	govv1 "github.com/cosmos/cosmos-sdk/x/gov/types/v1"
 
 	beacontypes "github.com/unification-com/mainchain/x/beacon/types"
 	enttypes "github.com/unification-com/mainchain/x/enterprise/types"
@@ -183,7 +186,66 @@ func haltCause(w *World) string {
 	if w.M != nil && w.M.Ent.Denom != w.T.Knobs.Ent.Denom {
 		return "/enterprise-denom-changed-by-governance"
 	}
+	if govBelowDeposits(w) || govSpendingProposal(w) {
+		return "/gov-account-spent-by-proposal"
+	}
 	return ""
+}
+
+// govSpendingProposal: a proposal whose messages spend from the governance module account itself
+// (a stream funded by it, a transfer out of it) is pending or has passed. The account holds
+// nothing but the deposits of the live proposals, so executing such a message spends them.
+func govSpendingProposal(w *World) bool {
+	if w.M == nil {
+		return false
+	}
+	if w.M.Gov.SpentFromGov {
+		return true
+	}
+	for _, id := range sortedU64(w.M.Gov.Pending) {
+		if spendsFromGov(w.M.Gov.Pending[id].Msgs) {
+			return true
+		}
+	}
+	return false
+}
+
+func spendsFromGov(msgs []sdk.Msg) bool {
+	gov := ModuleAddr(govtypes.ModuleName).String()
+	for _, lf := range Flatten(msgs) {
+		switch m := lf.Msg.(type) {
+		case *streamtypes.MsgCreateStream:
+			if m.Sender == gov {
+				return true
+			}
+		case *streamtypes.MsgTopUpDeposit:
+			if m.Sender == gov {
+				return true
+			}
+		case *banktypes.MsgSend:
+			if m.FromAddress == gov {
+				return true
+			}
+		}
+	}
+	return false
+}
+
+// govBelowDeposits: the governance module account holds less than the deposits of the proposals
+// still in their deposit or voting period (on the last committed state) - possible only when a
+// passed proposal executed a message that spends from the governance account itself.
+func govBelowDeposits(w *World) (below bool) {
+	_, _ = safely(func() {
+		ctx := w.CCtx()
+		sum := sdk.NewCoins()
+		w.Ref.App.GovKeeper.IterateAllDeposits(ctx, func(d govv1.Deposit) bool {
+			sum = sum.Add(d.Amount...)
+			return false
+		})
+		bal := w.Ref.App.BankKeeper.GetAllBalances(ctx, ModuleAddr(govtypes.ModuleName))
+		below = !bal.IsAllGTE(sum)
+	})
+	return below
 }
 
 func haltSite(s string) string {
